@@ -36,7 +36,7 @@ var rawPorts = []string{"", "", "", ":", ":80", ":080", ":80x", ":-1", ":8 0", "
 var rawPaths = []string{"", "", "/", "/as", "/as/1", "/as/1/many", "/bs/abc/relationships/one", "as", "as/1", "a:b", "a/b:c", "/a:b", ":", "a:", "./a:b", "/%41s", "/as/%41", "/%zz", "/%4", "/%", "/as%", "/a%2Fb", "/as/a+b", "/as/a b", "/as/\xc3\xa9", "/as/%C3%A9", "/as/\xff", "/\x01", "/as\x7f", "/as\x00", "/as\t", "/as\n", "/a;b", "/as;x=1", "*", "*/a", "//as", "/as//1/", "/as/[x]", "/as/a@b", "/as/{}|\\^`<>\"", "/as/%25", "/as/%2541", "/as/%00", "/as/%7f", "/as/%3F", "/as/%23", "/as/%2f"}
 var rawPieces = []string{"a=1", "a=2", "b=1", "a", "=", "=x", "a=", "a=b=c", "a+b=c+d", "a%20=%41", "a%2B=%2b", "a=%zz", "%zz=1", "a=%4", "a=%", "%=1", "a%4=1", "a;b=1", "a=1;b=2", ";", ";=;", "a=;", "%3B=%3b", "a=\xc3\xa9", "\xff=\xfe", "a=\x01", "a=\x7f", "a= b", " =", "a=?", "?", "a=/", "a=:", "a=@", "a=[]", "[=]", "a=%00", "a=%7F", "%00=", "a=%26", "a=%3D", "a%3Db=c", "a%26b=c", "a=%23", "a=%25", "a=%2525",
 	"fields[as]=name", "fields[as]=name,n,age", "fields[bs]=id", "fields%5Bas%5D=name", "fields%5bas%5d=n", "fields[as]=", "fields[]=a", "fields[as=name", "fields%5Bas]=b",
-	"sort=id", "sort=-name,age", "sort=", "sort", "sort=name&sort=n", "include=many", "include=many.one,r", "include=", "page[size]=1", "page[number]=2", "page%5Bsize%5D=10", "page[size]=x", "page[size]=", "filter=x", "filter=", "filter", "filter=%7B%7D", "filter=%7B%22f%22%3A%22name%22%2C%22o%22%3A%22%3D%22%2C%22v%22%3A%22x%22%7D", "filter=a+b", "filter=a%20b", "filter=%7Bx", "filter={}", "filter=lab&filter=other", "bogus=1"}
+	"sort=id", "sort=-name,age", "sort=", "sort", "sort=name&sort=n", "include=many", "include=many.one,r", "include=", "page[size]=1", "page[number]=2", "page%5Bsize%5D=10", "page[size]=x", "page[size]=", "filter=x", "filter=", "filter", "filter=%7B%7D", "filter=%7B%22f%22%3A%22name%22%2C%22o%22%3A%22%3D%22%2C%22v%22%3A%22x%22%7D", "filter=a+b", "filter=a%20b", "filter=%7Bx", "filter={}", "filter=%5Cu007bx", "filter=%5Cu007b", "filter=%5Cu007b%22a%22%3A1", "filter=%5Cu007Ba", "filter=lab&filter=other", "bogus=1"}
 var rawFrags = []string{"", "", "", "#", "#f", "#%41", "#%zz", "#%4", "#%", "#a#b", "##", "#\x01", "#\x7f", "#\xc3\xa9", "#\xff", "#?x=1", "#/p", "#a b", "#a;b", "#a%zzb", "#%00"}
 
 const rawAlphabet = "/:?#[]@%;&=+ .-_~*!$'(),abzAZ019fF{}|\\^`<>\"\x00\x01\x1f\x7f\x80\xc3\xa9\xff"
@@ -262,9 +262,8 @@ func suiteURLRaw(r *Rng, n int, thorough bool, o *Out) {
 		if u != nil {
 			lb, _ := json.Marshal(u.Params.FilterLabel)
 			labelBody = string(lb[1 : len(lb)-1])
-			if strings.HasPrefix(labelBody, "{") { // the label body as URL.String writes it
-				labelBody = "\\u007b" + labelBody[1:]
-			}
+			// handed over as json.Marshal wrote it: the rewrite of a leading '{' to \u007b that
+			// URL.String does is part of the model (rewriteBrace in Model/Url.lean)
 			dump = sxURL(u) // before String(), which sorts the field lists in place
 		}
 		op2 := lst("urlraw", "url", lst("tags"), sxSchema(s), hx(raw), ld, fd, hx(labelBody))
